@@ -3,6 +3,7 @@ package props
 import (
 	"encoding/json"
 	"fmt"
+	"math"
 	"reflect"
 	"sort"
 	"strconv"
@@ -22,6 +23,16 @@ import (
 
 // tval maps a value id to an arbitrary interface{} value (nil included).
 func tval(id int) interface{} {
+	switch id % 11 {
+	case 7:
+		return []int{id, id + 1} // uncomparable dynamic types are legal VALUES
+	case 8:
+		return map[string]int{"v": id}
+	case 9:
+		return math.Copysign(0, -1)
+	case 10:
+		return 0.0
+	}
 	switch id % 7 {
 	case 0:
 		return nil
@@ -34,6 +45,9 @@ func tval(id int) interface{} {
 	}
 	return id
 }
+
+// fnKeep: the Compute function returns the old value unchanged (twin harness only).
+const fnKeep uint8 = 4
 
 type tobs struct {
 	V   interface{}
@@ -137,6 +151,9 @@ func (t *twCache) do(o *model.Op) (r tobs) {
 				c.SetDefaultExpiration(time.Duration(o.FnDef))
 			}
 			_, del := model.FnResult(o.Fn, o.Val, loaded)
+			if o.Fn == fnKeep && loaded {
+				return old, false // store the very value that is there
+			}
 			return tval(o.Val), del
 		}, d)
 	case model.CGetAndDelete:
@@ -243,6 +260,9 @@ func (t *twCacheOf) do(o *model.Op) (r tobs) {
 				c.SetDefaultExpiration(time.Duration(o.FnDef))
 			}
 			_, del := model.FnResult(o.Fn, o.Val, loaded)
+			if o.Fn == fnKeep && loaded {
+				return old, false // store the very value that is there
+			}
 			return tval(o.Val), del
 		}, d)
 	case model.CGetAndDelete:
@@ -343,6 +363,9 @@ func doAnyMap(m anyMap, o *model.Op) (r tobs) {
 		r.V, r.OK = m.Compute(k, func(old interface{}, loaded bool) (interface{}, bool) {
 			r.Fn = append(r.Fn, fmt.Sprintf("(%#v,%v)", old, loaded))
 			_, del := model.FnResult(o.Fn, o.Val, loaded)
+			if o.Fn == fnKeep && loaded {
+				return old, false
+			}
 			return tval(o.Val), del
 		})
 	case model.MLoadAndDelete:
@@ -524,7 +547,7 @@ func runC12Case(rt *rapid.T) {
 				o.Val = st.val()
 				switch o.K {
 				case model.MCompute:
-					o.Fn = uint8(uniform(rt, 4, "fn"))
+					o.Fn = uint8(uniform(rt, 5, "fn"))
 				case model.MRange:
 					if uniform(rt, 3, "stop") == 0 {
 						o.N = irange(rt, 1, 5, "stopAfter")
@@ -540,6 +563,9 @@ func runC12Case(rt *rapid.T) {
 				o = st.genOp(rt)
 				if o.K == model.HBulkGet {
 					o.K = model.CItems
+				}
+				if o.K == model.CCompute && uniform(rt, 5, "keepOld") == 0 {
+					o.Fn = fnKeep
 				}
 				if o.K == model.CGetOrCompute || o.K == model.CCompute {
 					// loaders are slow by nature: time passes inside the user function, and it may touch settings
